@@ -125,6 +125,32 @@ Section Build.
     - now apply (step_inv W sem WF NB SO).
     - intros n Ln Rn. apply step_built_mono; auto.
   Qed.
+
+  (* the same for a model without stored results in which the cells that are
+     written are built (a loaded model: no condition on the order of building) *)
+  Definition op_in (P : nat -> Prop) (o : gop) : Prop :=
+    match o with
+    | Evaluate n => n < N
+    | Build n => n < N
+    | SetValue a v => P a /\ wb_input W a = true /\ scalar_exact v = true
+    end.
+
+  Lemma nodata_history_ok (P : nat -> Prop) : (forall n, wb_stored W n = VNone) ->
+    forall h s, Inv s -> (forall a, P a -> st_built s a = true) -> Forall (op_in P) h ->
+      ok_history W sem (ok_op W) s h.
+  Proof.
+    intros ND. induction h as [|o h IH]; intros s I PB F; cbn [ok_history]; auto.
+    inversion F as [|? ? Ho Fh]; subst.
+    assert (PO: post_ok o).
+    { destruct o as [n|a v|n]; cbn in *; auto. destruct Ho as (Pa & Ia & Ev).
+      repeat split; auto. apply (inv_lt W sem s I). auto. }
+    assert (OK: ok_op W s o).
+    { destruct o as [n|a v|n]; cbn in *; auto. destruct Ho as (Pa & Ia & Ev).
+      repeat split; auto. intros d _ _ _. right. apply ND. }
+    split; auto. apply IH; auto.
+    - now apply (step_inv W sem WF NB SO).
+    - intros a Pa. apply step_built_mono; auto.
+  Qed.
 End Build.
 
 (* ---------------------------------------------------------- congruence *)
